@@ -34,13 +34,20 @@ def run(tier):
     # 2. variants of TLC-enumerated programs on the implementation
     base = []
     for fam in ("altor", "subif", "fmt"):
-        vecs, st = engine.generate(fam, 3 if tier == "thorough" else 2, 8, wd)
+        # the simplifier in the mechanism layer: Engine.tla runs every program compiled with and without
+        # tree::simplify (tla/Tree.tla) against Zw!Den; Simplify reaches a fixed point free of its patterns
+        r = engine.model_check(vd, fam, 2)
+        if r.violated:
+            vd.observe("model:%s:%s" % (fam, r.violated), {"output": r.out[-4000:]})
+        vecs, st = engine.generate(fam, 3 if tier == "thorough" else 2, 8, wd, nosimp=True)
+        # binding: parse tree before / after simplify, pull sequence of both compilations
+        engine.replay(vd, vecs, bdir, wd, PID, check_illformed=False)
         base += [v for v in vecs if v["kind"] == "stream"]
     if tier == "quick":
-        vecs3, st = engine.generate("subif", 3, 16, wd)
+        vecs3, st = engine.generate("subif", 3, 16, wd, light=True)
         s3 = [v for v in vecs3 if v["kind"] == "stream"]
         base += rng.sample(s3, min(1500, len(s3)))
-        vecs4, st = engine.generate("altor", 3, 16, wd)
+        vecs4, st = engine.generate("altor", 3, 16, wd, light=True)
         s4 = [v for v in vecs4 if v["kind"] == "stream"]
         base += rng.sample(s4, min(1500, len(s4)))
     cmds, meta = [], []
@@ -104,7 +111,6 @@ def run(tier):
         elif b.get("status") == "ok" and len(b["results"]) > 0:
             nontriv.add((gi, kind))
     vd.cov["distinct_nontrivial"] = len(nontriv)
-    vd.cov["traces_validated_against_impl"] = 0
     vd.sample({"base": meta[0][3], "variant": meta[3][3], "kind": meta[3][1]})
     vd.sample({"base": meta[0][3], "variant": meta[-1][3], "kind": meta[-1][1]})
     return vd.finish(rule="(1) tla/Equiv.tla: E?=(E,), if=ALT of assertions, ?(E)=([E]!=[]), infix=?(let..), X**=X* hold for "
@@ -112,7 +118,10 @@ def run(tier):
                      "without tree::simplify, re-laid-out with whitespace/newlines and comments of the three styles between "
                      "all tokens, strings re-spelled (continuation, \\x, octal, raw), %%( %%) vs %%s, and every single-position "
                      "sugar rewrite; results must be identical (sequence; multiset where the rewrite changes branch order); "
-                     "non-trivial = variant of a program with >= 1 result",
+                     "non-trivial = variant of a program with >= 1 result; (3) tla/Tree.tla transcribes the grammar actions and "
+                     "tree::simplify, tla/EngineOps.tla builds the op graph from the tree: Engine.tla is model-checked with and "
+                     "without the simplification (same meaning, Simplify is a fixed point free of its patterns), and the real parse "
+                     "tree before and after simplify and the pull sequences of both compilations are compared with the model",
                      extra={"base_programs": len(base), "variants": len(meta) - len(base)})
 
 def replay(path):
